@@ -72,8 +72,16 @@ func runtimeImports(noast bool) []string {
 }
 
 // checkGenerated applies the validity predicate of C08 to one (text, variant).
-func checkGenerated(text string, v lab.Variant, imports []gram.Import) string {
-	src, genErr := lab.Generate(text, v, "g.peg.go")
+func checkGenerated(text string, v lab.Variant, imports []gram.Import, warned bool) string {
+	var src []byte
+	var genErr string
+	if warned {
+		// the grammar earns warnings (unused or undefined rules): without -strict the parser
+		// is written all the same, and has to be as valid as any other
+		src, _, genErr = lab.GenerateWarned(text, v, "g.peg.go")
+	} else {
+		src, genErr = lab.Generate(text, v, "g.peg.go")
+	}
 	if genErr != "" {
 		return fmt.Sprintf("[%s] %s", v.Flags(), genErr)
 	}
@@ -245,10 +253,21 @@ func c08Gen(t *rapid.T, openShapes map[string]drv.Finding, maxExtra int) genCase
 		}
 	}
 	_, g4open := openShapes["pred-line-comment"]
+	warned := !degenerate && rapid.IntRange(0, 5).Draw(t, "warned?") == 0
+	var warnKinds []string
+	if warned {
+		warnKinds = gram.AddWarned(t, g)
+	}
 	feat := gram.Decorate(t, g, gram.DecorateOpts{NoLineCommentInPredicate: g4open, MaxExtraRules: maxExtra})
 	g.Package, g.Struct = "g", "G"
 	if degenerate {
 		feat["grammar-without-terminals"] = true
+	}
+	if warned {
+		feat["warned-grammar"] = true
+		for _, k := range warnKinds {
+			feat["warned:"+k] = true
+		}
 	}
 	cs := genCase{G: g, Features: feat}
 	if rapid.IntRange(0, 2).Draw(t, "spell?") == 0 {
@@ -283,7 +302,7 @@ func c08Shard(c *drv.Ctx, shard, checks int) (*drv.Stats, *drv.Violation, error)
 		if !known {
 			for _, v := range lab.AllVariants {
 				st.Eval()
-				if what = checkGenerated(cs.Text, v, cs.G.Imports); what != "" {
+				if what = checkGenerated(cs.Text, v, cs.G.Imports, cs.Features["warned-grammar"]); what != "" {
 					if strings.Contains(what, "did not terminate") {
 						// a time budget is never a violation: counted, reported as inconclusive
 						st.Class("generation_did_not_terminate")
@@ -350,7 +369,13 @@ func c08GroundTruth(c *drv.Ctx, n int) error {
 	for i := range cases {
 		for _, v := range lab.AllVariants {
 			name := fmt.Sprintf("p%d%s", i, v.Name)
-			src, genErr := lab.Generate(cases[i].Text, v, "g.peg.go")
+			var src []byte
+			var genErr string
+			if cases[i].Features["warned-grammar"] {
+				src, _, genErr = lab.GenerateWarned(cases[i].Text, v, "g.peg.go")
+			} else {
+				src, genErr = lab.Generate(cases[i].Text, v, "g.peg.go")
+			}
 			if genErr != "" {
 				cs := cases[i]
 				c.AddViolation(drv.Violation{Property: "C08", Kind: "gen-text", What: fmt.Sprintf("[%s] %s\n--- grammar ---\n%s", v.Flags(), genErr, cs.Text), Case: &cs})
@@ -412,7 +437,7 @@ func init() {
 			return "", err
 		}
 		for _, v := range lab.AllVariants {
-			if what := checkGenerated(cs.Text, v, cs.G.Imports); what != "" {
+			if what := checkGenerated(cs.Text, v, cs.G.Imports, cs.Features["warned-grammar"]); what != "" {
 				return what, nil
 			}
 		}
@@ -452,7 +477,7 @@ func init() {
 		text := pr.Text()
 		for _, v := range []lab.Variant{lab.V0, lab.N0} {
 			t0 := time.Now()
-			what := checkGenerated(text, v, nil)
+			what := checkGenerated(text, v, nil, false)
 			fmt.Printf("%d rules, %q: %v %s\n", n, v.Flags(), time.Since(t0), firstLine(what))
 		}
 		return 0
@@ -472,7 +497,7 @@ func c08BigShard(c *drv.Ctx, shard, checks int) (*drv.Stats, *drv.Violation, err
 	text := pr.Text()
 	for _, v := range []lab.Variant{lab.V0, lab.N0, lab.V1} {
 		st.Eval()
-		if what := checkGenerated(text, v, nil); what != "" {
+		if what := checkGenerated(text, v, nil, false); what != "" {
 			cs := genCase{G: &gram.Grammar{Package: "g", Struct: "G"}, Text: text, Features: map[string]bool{fmt.Sprintf("rule-constants:exactly-%d", total): true}}
 			return st, &drv.Violation{Property: "C08", Kind: "gen-text", What: fmt.Sprintf("grammar with exactly %d rule constants: %s", total, what), Case: &cs}, nil
 		}
